@@ -7,6 +7,11 @@ CONSTANTS
   SiblingsAt <- NoneAt
   Stmts = {}
   SubSecond = FALSE
+  Modes = {}
+  Texts = {}
+  Calls = {}
+  Lexers = {}
+  EarlyRelease = FALSE
 SPECIFICATION TraceSpec
 CONSTRAINT HighWater
 POSTCONDITION TraceAccepted
